@@ -659,13 +659,32 @@ type modelRow struct {
 
 type mModel struct {
 	data map[modelKey]*modelEntry
+	all  map[modelKey][]modelRow // every acknowledged row, whatever its version
 }
 
-func newModel() *mModel { return &mModel{data: map[modelKey]*modelEntry{}} }
+func newModel() *mModel {
+	return &mModel{data: map[modelKey]*modelEntry{}, all: map[modelKey][]modelRow{}}
+}
+
+// wrote reports whether some acknowledged row for (sid, t) at exactly version ver reads back, under
+// schema variant v with the full projection, as the given rendering.
+func (m *mModel) wrote(schemas []mSchema, v, sid int, t, ver int64, rendering string) bool {
+	for _, mr := range m.all[modelKey{sid, t}] {
+		if mr.row.V != ver {
+			continue
+		}
+		tags, fields := expectRow(mr, schemas[mr.variant%len(schemas)], schemas[v%len(schemas)], mQuery{})
+		if sortedKV(tags)+"| "+sortedKV(fields) == rendering {
+			return true
+		}
+	}
+	return false
+}
 
 func (m *mModel) add(rows []mRow, variant int) {
 	for _, r := range rows {
 		k := modelKey{r.S, r.T}
+		m.all[k] = append(m.all[k], modelRow{r, variant})
 		e := m.data[k]
 		switch {
 		case e == nil:
